@@ -201,20 +201,17 @@ func (p *Program) noteHeapType(name string, t types.Type) {
 // an invariant of the memory model: every stored value satisfied it when it
 // was stored and the allocation counter only grows.
 func (p *Program) heapInv(name string, h *Term, alloc *Term) *Term {
-	amax := Var("alloc$max", SInt)
-	// both: cells allocated when the array was introduced hold values bounded by
-	// that allocation counter; every cell holds a well-typed value w.r.t. the
-	// final counter (cells beyond the counter are never observed before they
-	// are initialised by an allocation or by a callee).
+	// cells allocated when the array was introduced hold references bounded by
+	// that allocation counter; every cell holds a value in the range of its type.
 	two := func(bound []*Term, guardIdx *Term, v *Term, t types.Type) *Term {
-		a := typeInv(t, v, alloc)
-		b := typeInv(t, v, amax)
+		full := typeInv(t, v, alloc)
+		pure := typeInv(t, v, nil)
 		var out []*Term
-		if a != True && a != b {
-			out = append(out, Forall(bound, Implies(Le(guardIdx, alloc), a), []*Term{v}))
+		if full != True && full != pure {
+			out = append(out, Forall(bound, Implies(Le(guardIdx, alloc), full), []*Term{v}))
 		}
-		if b != True {
-			out = append(out, Forall(bound, b, []*Term{v}))
+		if pure != True {
+			out = append(out, Forall(bound, pure, []*Term{v}))
 		}
 		return And(out...)
 	}
@@ -348,36 +345,85 @@ func typeInv(t types.Type, v *Term, alloc *Term) *Term {
 		if v.Sort != SInt {
 			return True
 		}
+		if alloc == nil {
+			return Le(IntLit(0), v)
+		}
 		return And(Le(IntLit(0), v), Le(v, alloc))
 	case *types.Slice:
+		var ab *Term
+		if alloc != nil {
+			ab = Le(SBase(v), alloc)
+		}
 		return And(
-			Le(IntLit(0), SBase(v)), Le(SBase(v), alloc),
+			Le(IntLit(0), SBase(v)), ab,
 			Le(IntLit(0), SOff(v)), Le(IntLit(0), SLen(v)), Le(SLen(v), SCap(v)), Le(SCap(v), maxInt64), Le(SOff(v), maxInt64),
 			Implies(Eq(SBase(v), IntLit(0)), And(Eq(SCap(v), IntLit(0)), Eq(SOff(v), IntLit(0)))))
 	}
 	return True
 }
 
-// merge merges states arriving over several edges; conds[i] is the full
-// condition (pc) of edge i. The merged pc is the disjunction.
-func mergeStates(p *Program, sts []*State) *State {
-	var live []*State
-	for _, s := range sts {
+// spine splits a path condition built by State.assume (left-nested binary
+// conjunctions) into its assumptions in order, together with the term standing
+// for each prefix.
+func spine(t *Term) (elems []*Term, nodes []*Term) {
+	for t.Op == "and" && len(t.Args) == 2 {
+		elems = append(elems, t.Args[1])
+		nodes = append(nodes, t)
+		t = t.Args[0]
+	}
+	elems = append(elems, t)
+	nodes = append(nodes, t)
+	for i, j := 0, len(elems)-1; i < j; i, j = i+1, j-1 {
+		elems[i], elems[j] = elems[j], elems[i]
+		nodes[i], nodes[j] = nodes[j], nodes[i]
+	}
+	return
+}
+
+// mergeStates merges states arriving over several edges. The merged path
+// condition is  common-prefix && (sel ==> rest of one path) && (!sel ==> rest of
+// the other), where sel is the branch condition at which the two paths split
+// (or a fresh Boolean when there is no such condition); values are
+// ite(sel, ...). Quantified assumptions made along one path therefore stay
+// under a propositional guard instead of becoming ite conditions.
+// live[i] are the indices (into sts) of the merged states; sels[i] (i >= 1) is
+// the selector under which live[i] overrides the states before it.
+func mergeStatesSel(p *Program, sts []*State) (out *State, liveIdx []int, sels []*Term) {
+	for i, s := range sts {
 		if s != nil && !s.dead && s.pc != False {
-			live = append(live, s)
+			liveIdx = append(liveIdx, i)
 		}
 	}
-	if len(live) == 0 {
+	if len(liveIdx) == 0 {
 		d := &State{pc: False, cells: map[*ssa.Alloc]Val{}, heap: map[string]*Term{}, ghost: map[string]*Term{}, alloc: IntLit(0), dead: true}
-		return d
+		return d, nil, nil
 	}
-	if len(live) == 1 {
-		return live[0].clone()
-	}
-	out := live[0].clone()
-	for _, s := range live[1:] {
-		c := s.pc // condition selecting s
-		// cells
+	out = sts[liveIdx[0]].clone()
+	sels = []*Term{nil}
+	for _, li := range liveIdx[1:] {
+		s := sts[li]
+		e1, n1 := spine(out.pc)
+		e2, _ := spine(s.pc)
+		k := 0
+		for k < len(e1) && k < len(e2) && e1[k] == e2[k] {
+			k++
+		}
+		var prefix *Term = True
+		if k > 0 {
+			prefix = n1[k-1]
+		}
+		r1, r2 := e1[k:], e2[k:] // rest of out / rest of s
+		var sel *Term
+		if len(r1) > 0 && len(r2) > 0 && r1[0] == Not(r2[0]) && r2[0].closed() {
+			sel = r2[0]
+			r1, r2 = r1[1:], r2[1:]
+		} else {
+			sel = Fresh("merge", SBool)
+		}
+		np := &State{pc: prefix}
+		np.assume(Implies(sel, And(r2...)))
+		np.assume(Implies(Not(sel), And(r1...)))
+		c := sel
 		for k, v := range s.cells {
 			if ov, ok := out.cells[k]; ok {
 				out.cells[k] = mergeVal(c, v, ov)
@@ -400,8 +446,14 @@ func mergeStates(p *Program, sts []*State) *State {
 			}
 		}
 		out.alloc = Ite(c, s.alloc, out.alloc)
-		out.pc = Or(out.pc, c)
+		out.pc = np.pc
+		sels = append(sels, sel)
 	}
+	return out, liveIdx, sels
+}
+
+func mergeStates(p *Program, sts []*State) *State {
+	out, _, _ := mergeStatesSel(p, sts)
 	return out
 }
 
